@@ -507,7 +507,7 @@ def r6_inferred(chk, repo, L):
     from ..shapes import Choice, DictS, Interp, Leaf, ListLit, ListOf, ShapeError, TupS, _Raise, shape_of_con
     md = repo.module(IMG_MD)
     where = f"{md.relpath}:transform_metadata"
-    I = Interp(repo)
+    I = Interp(repo, strict=False)
     n_lines = Poly.sym("n_lines")
     for rec_name in ("signal", "processed"):
         try:
